@@ -74,7 +74,8 @@ EvalV(ve, env, w) ==
 \*   ch  := buffered channel holding 10, 20, closed
 \*   w   := [8]int{}  target of the `=` form whose second operand is indexed by the first:  for kk, w[kk+1] = range s
 Heap0 == [s |-> [cells |-> <<10, 20, 30, 0>>, len |-> 3], arr |-> <<10, 20, 30>>,
-          str |-> <<97, 195, 169, 255, 122>>, n |-> 3, ch |-> <<10, 20>>, w |-> <<0, 0, 0, 0, 0, 0, 0, 0>>]
+          str |-> <<97, 195, 169, 255, 122>>, n |-> 3, ch |-> <<10, 20>>, w |-> <<0, 0, 0, 0, 0, 0, 0, 0>>,
+          n0 |-> 0, m1 |-> <<<<7, 70>>>>]     \* n0 := 0 (empty integer range), m1 := map[int]int{7: 70} (one entry: deterministic)
 Spawn(w, g, a, b) ==
   LET c1 == Alloc(w, a) c2 == Alloc(c1.w, b)
       c3 == Alloc(c2.w, 0 - 1) c4 == Alloc(c3.w, 0 - 1) c5 == Alloc(c4.w, 0 - 7)
@@ -124,6 +125,8 @@ RangeStart(s, heap, flags) ==
     [] s.kind = "array"  -> [idx |-> 0, copy |-> heap.arr]                 \* an array is ranged over a COPY
     [] s.kind = "string" -> [idx |-> 0, pairs |-> RangeString(heap.str)]
     [] s.kind = "int"    -> [idx |-> 0, n |-> heap.n]
+    [] s.kind = "int0"   -> [idx |-> 0, n |-> heap.n0]
+    [] s.kind = "map1"   -> [idx |-> 0, pairs |-> heap.m1]
     [] s.kind = "chan"   -> [idx |-> 0]
 \* next pair: [ok, k, v]
 RangeNext(s, st, heap, flags) ==
@@ -134,7 +137,8 @@ RangeNext(s, st, heap, flags) ==
                                   v |-> IF "KF03b" \in flags THEN heap.arr[st.idx + 1] ELSE st.copy[st.idx + 1]]
                             ELSE [ok |-> FALSE, k |-> 0, v |-> 0]
     [] s.kind = "string" -> IF st.idx < Len(st.pairs) THEN [ok |-> TRUE, k |-> st.pairs[st.idx + 1][1], v |-> st.pairs[st.idx + 1][2]] ELSE [ok |-> FALSE, k |-> 0, v |-> 0]
-    [] s.kind = "int"    -> IF st.idx < st.n THEN [ok |-> TRUE, k |-> st.idx, v |-> 0] ELSE [ok |-> FALSE, k |-> 0, v |-> 0]
+    [] s.kind \in {"int", "int0"} -> IF st.idx < st.n THEN [ok |-> TRUE, k |-> st.idx, v |-> 0] ELSE [ok |-> FALSE, k |-> 0, v |-> 0]
+    [] s.kind = "map1"   -> IF st.idx < Len(st.pairs) THEN [ok |-> TRUE, k |-> st.pairs[st.idx + 1][1], v |-> st.pairs[st.idx + 1][2]] ELSE [ok |-> FALSE, k |-> 0, v |-> 0]
     [] s.kind = "chan"   -> IF st.idx < Len(heap.ch) THEN [ok |-> TRUE, k |-> heap.ch[st.idx + 1], v |-> 0] ELSE [ok |-> FALSE, k |-> 0, v |-> 0]
 \* mutations of the collections performed by loop bodies
 Mutate(m, heap) ==
